@@ -434,6 +434,24 @@ func (ex *Exec) run(fn *ssa.Function, args, freeVars []*Term, st *State, reach *
 			fr.backEdge(from, to, cond, s)
 			return
 		}
+		// loop exit edges: exit assertions of every loop being left
+		for h, li := range loopInfo {
+			if li.body[from] && !li.body[to] {
+				// exits that leave the function directly (a return inside the loop) are not loop completions
+				normal := from == h
+				for _, hs := range h.Succs {
+					if !li.body[hs] && hs == to {
+						normal = true
+					}
+				}
+				if !normal {
+					if _, isRet := to.Instrs[len(to.Instrs)-1].(*ssa.Return); isRet {
+						continue
+					}
+				}
+				fr.loopExit(h, from, cond, s)
+			}
+		}
 		incoming[to] = append(incoming[to], inEdge{from, cond, s})
 	}
 
@@ -709,6 +727,51 @@ func (fr *Frame) backEdge(from, h *ssa.BasicBlock, cond *Term, st *State) {
 		d := fr.loopDecreases(lc, st, over)
 		// measure is a signed 64-bit quantity: strictly decreases and stays >= 0 before
 		fr.oblG(cond, "decreases", h.Instrs[0].Pos(), And(BVSlt(d, lc.decrInit), BVSle(BVLit(0, 64), lc.decrInit)), "C13")
+	}
+}
+
+// loopExit checks the `exit` clauses of a loop on an edge that leaves it.
+func (fr *Frame) loopExit(h, from *ssa.BasicBlock, cond *Term, st *State) {
+	lc := fr.loops[h]
+	if lc == nil || lc.spec == nil || len(lc.spec.Exits) == 0 {
+		return
+	}
+	env := fr.loopEnv(lc, st, nil)
+	// source-level names visible at the exiting block
+	for _, b := range fr.fn.Blocks {
+		if !b.Dominates(from) {
+			continue
+		}
+		for _, insn := range b.Instrs {
+			if d, ok := insn.(*ssa.DebugRef); ok && !d.IsAddr && d.Object() != nil {
+				if _, isPhi := env.vars[d.Object().Name()]; isPhi && lc.body[b] && b != from {
+					// keep header phi binding unless redefined later in a dominating body block
+				}
+				if t, ok := fr.vals[d.X]; ok {
+					if lc.body[b] {
+						env.vars[d.Object().Name()] = CVal{T: t, Ty: d.X.Type()}
+					}
+				} else if c, ok := d.X.(*ssa.Const); ok && lc.body[b] {
+					env.vars[d.Object().Name()] = CVal{T: fr.ex.constVal(c), Ty: c.Type()}
+				}
+			}
+		}
+	}
+	for _, c := range lc.spec.Exits {
+		t, err := fr.ex.safeEval(env, func() *Term { return env.boolOf(c.E) })
+		if err != "" {
+			fatal("contract error in exit clause of %s #%d: %s", funcName(fr.fn), lc.ordinal, err)
+		}
+		ps := labelProps(c.Labels)
+		if len(ps) == 0 {
+			ps = []string{"C13"}
+		}
+		name := ""
+		if len(c.Labels) > 0 {
+			name = c.Labels[0]
+		}
+		o := &Obl{Fn: funcName(fr.ex.top), Kind: "loop.exit", Guard: cond, Goal: t, Props: ps, Via: fr.chain, Snip: c.Src, Name: name}
+		fr.ex.oblige(o)
 	}
 }
 
